@@ -15,7 +15,7 @@ from mirsmt import mk_deref, mk_v2b, split_sexpr_args, sanitize
 from exec2 import Exec2, is_addr
 
 
-class Inconclusive(Exception):
+class Inconclusive(ValueError):
     pass
 
 
@@ -454,6 +454,25 @@ def std_models(opaque_ok=False):
             return "C_None"
         return [(b, "(C_Some %s)" % v[1]), (ex._neg(b), "C_None")]
 
+    @_wants_env
+    def m_then(ex, v, env):
+        """bool::then(closure): the closure runs only when the flag is set"""
+        b = mk_v2b(v[0])
+        outs = []
+        if b != "false":
+            for c, r in run_closure(ex, env, v[1], []):
+                outs.append((conj(([] if b == "true" else [b]) + c), "(C_Some %s)" % r))
+        if b != "true":
+            outs.append(("true" if b == "false" else ex._neg(b), "C_None"))
+        return outs
+
+    @_wants_env
+    def m_borrow_all(ex, v, env):
+        x = _deep(ex, env, v[0])
+        if x.startswith("(deref ") and x.endswith(")"):
+            return x[len("(deref "):-1]        # a copy of what `p` points to, borrowed again, reads like `p`
+        return "(ref %s)" % x
+
     def m_is_some(neg):
         def f(ex, v):
             x = v[0]
@@ -462,7 +481,10 @@ def std_models(opaque_ok=False):
                 return "(b2v %s)" % ("false" if neg else "true")
             if x == "C_None":
                 return "(b2v %s)" % ("true" if neg else "false")
-            raise Inconclusive("is_some of %s" % x[:60])
+            # an opaque Option: both answers
+            ex.smt.fun("opq_is_some", 1)
+            c = "(v2b (opq_is_some %s))" % x
+            return [(c, "(b2v %s)" % ("false" if neg else "true")), ("(not %s)" % c, "(b2v %s)" % ("true" if neg else "false"))]
         return f
 
     def m_is_ok(neg):
@@ -473,7 +495,9 @@ def std_models(opaque_ok=False):
                 return "(b2v %s)" % ("false" if neg else "true")
             if x.startswith("(C_Err "):
                 return "(b2v %s)" % ("true" if neg else "false")
-            raise Inconclusive("is_ok of %s" % x[:60])
+            ex.smt.fun("opq_is_ok", 1)
+            c = "(v2b (opq_is_ok %s))" % x
+            return [(c, "(b2v %s)" % ("false" if neg else "true")), ("(not %s)" % c, "(b2v %s)" % ("true" if neg else "false"))]
         return f
 
     return {
@@ -500,11 +524,15 @@ def std_models(opaque_ok=False):
         r"^(std::option::)?Option::<.*>::map::<": m_option_map,
         r"^Result::<.*>::and_then::<|^(std::option::)?Option::<.*>::and_then::<": m_and_then,
         r"^Result::<.*>::ok$": m_ok,
-        r"^bool::then_some::<": m_then_some,
+        r"^bool::then_some::<|^core::bool::<impl bool>::then_some::<": m_then_some,
+        r"^core::bool::<impl bool>::then::<.*\{closure@": m_then,
         r"^(std::option::)?Option::<.*>::is_some$": m_is_some(False),
         r"^(std::option::)?Option::<.*>::is_none$": m_is_some(True),
         r"^Result::<.*>::is_ok$": m_is_ok(False),
         r"^Result::<.*>::is_err$": m_is_ok(True),
+        # byte strings are values: an owned copy of a slice is that slice's content, `&v[..]` borrows it again
+        r"^std::slice::<impl \[u8\]>::to_vec$|^<\[u8\] as ToOwned>::to_owned$": lambda ex, v: mk_deref(v[0]),
+        r"^<Vec<u8> as Index<RangeFull>>::index$|^<Vec<u8> as Deref>::deref$|^Vec::<u8>::as_slice$": m_borrow_all,
         r"^Pin::<&mut .*>::new_unchecked$": lambda ex, v: v[0],
         r" as IntoFuture>::into_future$": lambda ex, v: v[0],
     }
